@@ -150,7 +150,9 @@ class Interp:
                 # the query point kept as one point-valued field (that it is (x, y) is R17.5's clause)
                 return self.atom('X' if pr[2]['n'] == 'x' else 'Y')
             raise NotAnalysable('read of %s' % pr)
-        if l in (2, 3) and l not in self.env:
+        if getattr(self.b, 'argc', 3) == 5 and l in (2, 3, 4, 5) and l not in self.env:
+            v = self.atom({2: 'x1', 3: 'y1', 4: 'x2', 5: 'y2'}[l])     # add_edge(self, x1, y1, x2, y2)
+        elif l in (2, 3) and l not in self.env:
             v = ('pt', '1' if l == 2 else '2')      # the end points, as values that can be handed on
         elif l not in self.env:
             raise NotAnalysable('read of undefined local _%d' % l)
